@@ -16,7 +16,7 @@ class Prop:
     id = "C16"
     level = "exploration"
     engine = "VT"
-    quick_runs = 60000
+    quick_runs = 100000
     thorough_runs = 2500000
     rule = ("one generated cold/hot/sync timeline (bursts, gaps equal to the due time, completion/error with a pending element) through "
             "debounce / throttle_with_timeout, throttle_first, throttle_with_mapper (throttle sources from a cold pool) and sample "
